@@ -335,11 +335,14 @@ func (fv *funcVerifier) execSwitch(st *State, x *ast.SwitchStmt, label string) {
 	defer func() { fv.loops = fv.loops[:len(fv.loops)-1] }()
 	var done []*State
 	rest := st.clone()
-	var defaultClause *ast.CaseClause
-	for _, cc := range x.Body.List {
+	// entry state of every clause (case expressions are evaluated in order; the default clause
+	// is entered when no case matches, wherever it stands)
+	entry := make([]*State, len(x.Body.List))
+	defaultIdx := -1
+	for ci, cc := range x.Body.List {
 		clause := cc.(*ast.CaseClause)
 		if clause.List == nil {
-			defaultClause = clause
+			defaultIdx = ci
 			continue
 		}
 		var conds []smt.Term
@@ -360,13 +363,44 @@ func (fv *funcVerifier) execSwitch(st *State, x *ast.SwitchStmt, label string) {
 		body := rest.clone()
 		fv.restrict(body, c)
 		fv.restrict(rest, smt.Not(c))
-		fv.execCaseBody(body, clause.Body)
-		done = append(done, body)
+		entry[ci] = body
 	}
-	if defaultClause != nil {
-		fv.execCaseBody(rest, defaultClause.Body)
+	if defaultIdx >= 0 {
+		entry[defaultIdx] = rest
+		rest = nil
 	}
-	res := fv.mergeAll(rest, done)
+	// bodies in textual order; a body ending in fallthrough continues in the next clause
+	var ft *State
+	for ci, cc := range x.Body.List {
+		clause := cc.(*ast.CaseClause)
+		body := entry[ci]
+		if ft != nil {
+			body = fv.mergeAll(body, []*State{ft})
+			ft = nil
+		}
+		stmts := clause.Body
+		falls := false
+		if n := len(stmts); n > 0 {
+			if b, ok := stmts[n-1].(*ast.BranchStmt); ok && b.Tok == token.FALLTHROUGH {
+				falls = true
+				stmts = stmts[:n-1]
+			}
+		}
+		fv.execCaseBody(body, stmts)
+		if falls {
+			ft = body
+		} else {
+			done = append(done, body)
+		}
+	}
+	var res *State
+	if rest != nil {
+		res = fv.mergeAll(rest, done)
+	} else if len(done) > 0 {
+		res = fv.mergeAll(done[0], done[1:])
+	} else {
+		res = st.clone()
+	}
 	res = fv.mergeAll(res, frame.breaks)
 	*st = *res
 }
